@@ -21,6 +21,9 @@ namespace CaddyModel.C15
 def Accepts (ae c : Bytes) : Prop :=
   ∃ elem ∈ splitOn 44 ae, elemName elem = c ∧ elemQ elem > 0
 
+/-- `a` is at least as preferred as `b`: higher q, or equal q and at least the server preference -/
+def PrefGe (a b : Pref) : Prop := a.q > b.q ∨ (a.q = b.q ∧ a.order ≥ b.order)
+
 section
 variable {α : Type}
 
@@ -97,6 +100,13 @@ inductive Shape (cfg : Cfg α) (name : Bytes) (st : St α) : Prop where
 
 /-- the handler never switches protocols (101 hijacks the connection: no HTTP body follows) -/
 def No101 (ops : List (Op α)) : Prop := ∀ op ∈ ops, op ≠ Op.writeHeader 101
+
+/-- the handler's own edit of the header map -/
+def hdrEffect : Op α → Hdr → Hdr
+  | .hset k v, h => hSet h k v
+  | .hadd k v, h => hAdd h k v
+  | .hdel k, h => hDel h k
+  | _, h => h
 
 /-- what a handler may do before it announces its final status: edit headers, send informational (1xx,
     not 101) responses -/
